@@ -243,6 +243,12 @@ def w_corrupt(arg):
     Blob = blob_class()
     rec = harness.Rec()
     data = fill(n, kind)
+    if kind.endswith('+crc0'):
+        # a payload followed by its own CRC-24 has checksum 000000 (no final xor in RFC 4880 6.1): a legitimate "=AAAA"
+        data = fill(n, kind[:-5])
+        data = data + armor.crc24(data).to_bytes(3, 'big')
+        if armor.crc24(data) != 0:
+            raise harness.HarnessError('crc-zero construction failed')
     b = Blob()
     b.data = data
     text = str(b)
@@ -260,6 +266,24 @@ def w_corrupt(arg):
         elif in_body and not l.startswith('-----'):
             positions += [(off + k, 'body') for k, ch in enumerate(l) if ch != '=']
         off += len(l) + 1
+    # the checksum field replaced wholesale by distinguished values (zero, all ones, the CRC-24 initial value, the CRC of nothing)
+    crcpos = [p for p, w_ in positions if w_ == 'crc']
+    if part == 0 and crcpos:
+        for special in ('AAAA', '////', 'twTO', 'AAAB', 'gAAA'):
+            if text[crcpos[0]:crcpos[0] + 4] == special:
+                continue
+            bad = text[:crcpos[0]] + special + text[crcpos[0] + 4:]
+            case = {'kind': 'corrupt-crc-field', 'n': n, 'fill': kind, 'special': special}
+            rec.case(('corrupt-crc-field', n, kind, special), True, ('corrupt/crc-field=' + special,), {'payload_len': n, 'where': 'crc', 'field': special})
+            try:
+                with warnings.catch_warnings(record=True) as w:
+                    warnings.simplefilter('always')
+                    Blob.from_blob(bad)
+                reported = any('crc' in str(x.message).lower() for x in w)
+            except Exception:   # noqa
+                reported = True
+            if not reported:
+                rec.finding('corruption', 'not-reported/crc-field-' + special, case, 'checksum field %r (true %r) loaded silently' % (special, text[crcpos[0]:crcpos[0] + 4]))
     for pi, (pos, where) in enumerate(positions):
         if pi % nparts != part:
             continue
@@ -300,7 +324,7 @@ def run(tier, seed):
     nobj = 20 if tier == 'quick' else 320
     for i in range(16):
         tasks.append(('w_objects', (seed, i, nobj)))
-    blocks = [(5, 'rnd'), (48, 'ff'), (100, 'rnd'), (49, 'zero')] if tier == 'quick' else [(n, k) for n in (1, 2, 3, 47, 48, 49, 100, 333, 1000) for k in ('rnd', 'zero', 'ff')]
+    blocks = [(5, 'rnd'), (48, 'ff'), (100, 'rnd'), (49, 'zero'), (30, 'rnd+crc0')] if tier == 'quick' else [(n, k) for n in (1, 2, 3, 47, 48, 49, 100, 333, 1000) for k in ('rnd', 'zero', 'ff', 'rnd+crc0')]
     for n, k in blocks:
         for part in range(2):
             tasks.append(('w_corrupt', (n, k, part, 2)))
@@ -317,7 +341,10 @@ def replay(case):
         r = w_lengths((case['n'], case['n'] + 1))
     elif k == 'corrupt':
         r = w_corrupt((case['n'], case['fill'], 0, 1))
-        r.findings = [f for f in r.findings if f['case']['pos'] == case['pos'] and f['case']['alt'] == case['alt']]
+        r.findings = [f for f in r.findings if f['case'].get('pos') == case['pos'] and f['case'].get('alt') == case['alt']]
+    elif k == 'corrupt-crc-field':
+        r = w_corrupt((case['n'], case['fill'], 0, 1))
+        r.findings = [f for f in r.findings if f['case'].get('special') == case['special']]
     else:
         r = harness.Rec()
         # objects are rebuilt from the index; headers and form from the case
